@@ -326,6 +326,9 @@ func (c *Conn) init(ctx context.Context, dialedHost *DialedHost) error {
 	}
 
 	c.timeout = c.cfg.Timeout
+	// the last body read of the handshake has left its ConnectTimeout deadline on
+	// the socket, and with Timeout 0 recv does not clear it
+	c.conn.SetReadDeadline(time.Time{})
 
 	// dont coalesce startup frames
 	if c.session.cfg.WriteCoalesceWaitTime > 0 && !c.cfg.disableCoalesce && !dialedHost.DisableCoalesce {
